@@ -404,3 +404,51 @@ func Workers() int {
 	}
 	return 16
 }
+
+// ---------------------------------------------------------------- private Go build cache
+
+// Every check compiles thousands of one-off packages. Left in the shared build cache they
+// pile up (130 GB in a few hours), so each check works on a private copy of a small warm
+// base cache (toolchain std + the repository's dependencies, ~90 MB, copied in ~0.3 s)
+// that is deleted with the scratch directory.
+func gocacheBase() string { return filepath.Join(Root, ".cache", "gobase") }
+
+// WarmGoCache builds the base cache if it does not exist yet.
+func WarmGoCache() {
+	base := gocacheBase()
+	if _, err := os.Stat(filepath.Join(base, "README")); err == nil {
+		return
+	}
+	tmp := fmt.Sprintf("%s.tmp.%d", base, os.Getpid())
+	_ = os.RemoveAll(tmp)
+	if err := os.MkdirAll(tmp, 0o755); err != nil {
+		Broken("cannot create %s: %v", tmp, err)
+	}
+	s := Scratch("warm")
+	repo := filepath.Join(s, "repo")
+	CopyRepo(repo)
+	env := []string{"GOCACHE=" + tmp}
+	if r := Run(repo, 20*time.Minute, env, "go", "build", "-o", filepath.Join(s, "kessoku"), "./cmd/kessoku"); r.Err != nil {
+		_ = os.RemoveAll(tmp)
+		Broken("warming the build cache: building cmd/kessoku failed:\n%s", r.Out)
+	}
+	// the harness side: runtime packages and what they import from std
+	_ = Run(Root, 20*time.Minute, env, "go", "build", "./rt/...", "./internal/...")
+	if err := os.Rename(tmp, base); err != nil {
+		// another process won the race: fine
+		_ = os.RemoveAll(tmp)
+	}
+	_ = os.RemoveAll(s)
+}
+
+// UseGoCache points this process (and its children) at a private copy of the base cache inside scratch.
+func UseGoCache(scratch string) {
+	WarmGoCache()
+	dst := filepath.Join(scratch, "gocache")
+	if out, err := exec.Command("cp", "-a", gocacheBase(), dst).CombinedOutput(); err != nil {
+		// no base: an empty private cache still works, only slower
+		_ = os.MkdirAll(dst, 0o755)
+		fmt.Fprintf(os.Stderr, "vcheck: note: could not copy the warm build cache (%v %s); starting cold\n", err, out)
+	}
+	os.Setenv("GOCACHE", dst)
+}
